@@ -21,6 +21,7 @@ vars == <<hist, nv, nc, nl, np, blocks, dels, liq, vfund, daoh, agr, fgr, appr>>
 
 Accts == {"a1", "a2", "a3", "a4", "a5", "a6"}
 Amts  == {"1", "1000", "1000000000000000000", "250000000000000000000", "3000000000000000000000"}
+AmtsZ == Amts \cup {"0"}      \* (a zero amount is an argument like any other for the paths that do not run ValidateBasic)
 Pick(S, h) == RandomElement(S)      \* dummy argument defeats TLC's caching of constant operators
 
 VestName(i) == "vx" \o ToString(i)
@@ -41,7 +42,10 @@ Prologue == <<
     Blk(5000, VC("a1", "vx1") \o VC("a2", "vx2") \o
               <<[k |-> "deploy", from |-> "a3", slots |-> 3], [k |-> "deploy_empty", from |-> "a4"], [k |-> "deploy_probe", from |-> "a5"], [k |-> "deploy_agent", from |-> "a2"],
                 [k |-> "dao_fund", from |-> "a5", amt |-> "250000000000000000000"],
-                [k |-> "delegate", from |-> "a6", val |-> 0, amt |-> "250000000000000000000"]>>),
+                [k |-> "delegate", from |-> "a6", val |-> 0, amt |-> "250000000000000000000"],
+                \* an operator that also delegates to the two other validators (it will run out of coins, see below)
+                [k |-> "delegate", from |-> "v3", val |-> 0, amt |-> "500000000000000000000"],
+                [k |-> "delegate", from |-> "v3", val |-> 1, amt |-> "500000000000000000000"]>>),
     Blk(5000, <<[k |-> "liquidate", from |-> "vx1", to |-> "a1", amt |-> "1000000000000000000000"],
                 [k |-> "liquidate", from |-> "vx2", to |-> "a2", amt |-> "1000000000000000000000"],
                 [k |-> "liquidate", from |-> "vx1", to |-> "a3", amt |-> "1500000000000000000000"],
@@ -68,12 +72,15 @@ Prologue == <<
                     [k |-> "gov_vote", from |-> "v3", id |-> 3, opt |-> "yes"]>> ELSE <<>>)),
     \* ... and the validator it unbonds from then turns out to have double-signed: the slash reaches the fresh unbonding entry
     \* (25 s: the voting period of 20 s is over, the unbonding time of 60 s is not)
-    [Blk(25000, <<[k |-> "send", from |-> "a5", to |-> "a4", amt |-> "1000"], [k |-> "spray", from |-> "a3", salt |-> 0]>>) EXCEPT !.evidence = <<1>>] >>
+    \* v3 gives away all its coins but a remainder smaller than any fee: from now on its fees are paid out of the
+    \* staking rewards of its three delegations (claimed just until the fee is covered)
+    [Blk(25000, <<[k |-> "send", from |-> "a5", to |-> "a4", amt |-> "1000"], [k |-> "spray", from |-> "a3", salt |-> 0],
+                  [k |-> "drain", from |-> "v3", to |-> "a5", keep |-> "1000"]>>) EXCEPT !.evidence = <<1>>] >>
     \o (IF Exports THEN <<[ev |-> "export_import"]>> ELSE <<>>)
 
 Init == /\ hist = Prologue
         /\ nv = 2 /\ nc = 2 /\ nl = 3 /\ np = (IF Exports THEN 3 ELSE 1) /\ blocks = 4
-        /\ dels = {<<"v1", 0>>, <<"v2", 1>>, <<"v3", 2>>} \cup {<<"a6", 0>>}  \* (delegator, validator index) pairs believed to exist
+        /\ dels = {<<"v1", 0>>, <<"v2", 1>>, <<"v3", 2>>, <<"v3", 0>>, <<"v3", 1>>} \cup {<<"a6", 0>>}  \* (delegator, validator index) pairs believed to exist
         /\ vfund = {<<"vx1", "a1">>, <<"vx2", "a2">>}     \* (vesting account, funder) pairs
         /\ daoh = {"a5"}                                  \* accounts believed to hold DAO shares
         /\ agr = {} /\ fgr = {} /\ appr = {"v2"}
@@ -124,8 +131,8 @@ TxOfKind(h, k, f, d, q, vf) ==
       [] k = 20 -> [k |-> "gov_submit", from |-> f, amt |-> Pick({"10", "1000", "2000", "5000"}, h)]
       [] k = 21 -> [k |-> "gov_vote", from |-> Pick({"v1", "v2", "v3", f}, h), id |-> Pick(1..(IF np > 0 THEN np ELSE 1), h), opt |-> Pick({"yes", "veto"}, h)]
       [] k = 22 -> [k |-> "bad_nonce", from |-> f, to |-> Pick(Accts, h)]
-      [] k = 23 -> [k |-> "pc_delegate", from |-> f, val |-> Pick(0..2, h), amt |-> Pick(Amts, h)]
-      [] k = 24 -> [k |-> "pc_undelegate", from |-> d[1], val |-> d[2], amt |-> Pick(Amts, h)]
+      [] k = 23 -> [k |-> "pc_delegate", from |-> f, val |-> Pick(0..2, h), amt |-> Pick(AmtsZ, h)]
+      [] k = 24 -> [k |-> "pc_undelegate", from |-> d[1], val |-> d[2], amt |-> Pick(AmtsZ, h)]
       [] k = 25 -> [k |-> "pc_withdraw", from |-> d[1], val |-> d[2]]
       [] k = 26 -> [k |-> "pc_setwd", from |-> f, to |-> Pick(Accts, h)]
       [] k = 28 -> [k |-> "deploy_empty", from |-> f]
@@ -156,9 +163,9 @@ TxOfKind(h, k, f, d, q, vf) ==
       \* the staking precompile reached through a contract (with the sender's approval), after a zero-value call to a
       \* module account, a fresh address or nobody
       [] k = 49 -> [k |-> "pc_approve_agent", from |-> f, amt |-> Pick({"250000000000000000000", "900000000000000000000000"}, h)]
-      [] k = 50 -> [k |-> "agent_delegate", from |-> Appr(h), val |-> Pick(0..2, h), amt |-> Pick(Amts, h),
+      [] k = 50 -> [k |-> "agent_delegate", from |-> Appr(h), val |-> Pick(0..2, h), amt |-> Pick(AmtsZ, h),
                     ping |-> Pick({"none", "notbonded", "bonded", "distr", "fresh", "self"}, h)]
-      [] k = 51 -> LET dd == Del(h) IN [k |-> "agent_undelegate", from |-> dd[1], val |-> dd[2], amt |-> Pick(Amts, h),
+      [] k = 51 -> LET dd == Del(h) IN [k |-> "agent_undelegate", from |-> dd[1], val |-> dd[2], amt |-> Pick(AmtsZ, h),
                     ping |-> Pick({"none", "notbonded", "notbonded", "bonded", "distr", "fresh"}, h)]
       [] k = 52 -> [k |-> "send_mod", from |-> f, mod |-> Pick(0..6, h), amt |-> Pick({"1", "1000000000000000000"}, h)]
       [] k = 53 -> [k |-> "gov_erc20_params", from |-> f, enable |-> (Pick(1..3, h) = 1)]
@@ -167,12 +174,15 @@ TxOfKind(h, k, f, d, q, vf) ==
       \* the ERC20 `transfer` of a registered pair, to an account or to the erc20 module address (conversion by the EVM hook)
       [] k = 55 -> [k |-> "erc20_xfer", from |-> q[2], to |-> (IF Pick(1..2, h) = 1 THEN "mod:erc20" ELSE Pick(Accts, h)), id |-> q[1],
                     amt |-> Pick({"1", "500", "400000000000000000000"}, h)]
+      \* the account without coins sends: the fee comes out of its staking rewards
+      [] k = 56 -> [k |-> Pick({"send", "send", "dao_fund"}, h), from |-> "v3", to |-> Pick(Accts, h), amt |-> "1"]
       [] k = 46 -> [k |-> "gov_coinomics", from |-> f, enable |-> (Pick(1..2, h) = 1)]
       [] k = 47 -> [k |-> "dao_scatter", from |-> DaoH(h), n |-> Pick({3, 40}, h), salt |-> Len(h), amt |-> "1000"]
 
-KindOf(k0) == IF k0 <= 55 THEN k0
-              ELSE IF k0 <= 56 THEN 38 ELSE IF k0 = 57 THEN 41 ELSE IF k0 = 58 THEN 42 ELSE IF k0 <= 60 THEN 51 ELSE IF k0 = 61 THEN 49 ELSE 8
-RandTx(h, slot) == TxOfKind(h, KindOf(Pick(1..62, h)), Pick(Accts, h), Del(h), Liq(h), Vf(h))
+KindOf(k0) == IF k0 <= 56 THEN k0
+              ELSE IF k0 <= 57 THEN 38 ELSE IF k0 = 58 THEN 41 ELSE IF k0 = 59 THEN 42 ELSE IF k0 <= 61 THEN 51 ELSE IF k0 = 62 THEN 49
+              ELSE IF k0 <= 64 THEN 56 ELSE 8
+RandTx(h, slot) == TxOfKind(h, KindOf(Pick(1..65, h)), Pick(Accts, h), Del(h), Liq(h), Vf(h))
 
 NewVest(txs)   == Cardinality({j \in DOMAIN txs : txs[j].k = "vest_create" /\ txs[j].merge = FALSE})
 Count(txs, kk) == Cardinality({j \in DOMAIN txs : txs[j].k = kk})
